@@ -125,6 +125,13 @@ CLAIMED = {
         'drawing is compared with the specification\'s netlist after every cycle.  (b) The TLA+ module MC_C15 assigns to every declarative element list (type, values, direction, '
         'length, place_after, reverse; cursor semantics) a drawing program; create_schematic\'s result is compared with that program\'s netlist and with the programmatic construction.',
    ref='DESIGN.md §6 C15', technique='TLA+ spec + TLC simulation; spec->code replay'),
+ 'C14': dict(
+   text='Drawing programs generated by TLC (MC_C13) whose intended netlist is well posed carry the specification\'s exact solution at w = 0 and w = 2.  The real library '
+        'produces every voltage / current / power annotation of every component in both directions and every potential annotation under real_solution, complex_solution, '
+        'single_frequency_complex_solution (Cartesian, polar rad, polar deg) and single_frequency_time_domain_steady_state_solution (cos/sin, rad/deg, rad/s or Hz); each '
+        'label text is tokenised and every number in it is one event judged by TLC with Display!RenderVerdict (sign, exponent, mantissa, half a unit of the displayed digit) '
+        'against the exact quantity in the component\'s reference direction, negated iff reverse was requested; phases are compared modulo a full turn.',
+   ref='DESIGN.md §6 C14', technique='TLA+ spec + TLC simulation (scenarios, exact solutions) and TLC trace validation of rendered annotations (code->spec)'),
 }
 
 PENDING_REASON = 'check not built yet in this round (planned: TLA+ model + conformance replay, see DESIGN.md §6); no claim is made until it exists'
